@@ -11,8 +11,8 @@
      TrimmedDescription works on the first line only; its truncated form is the first 77 runes + "...".
    REFUTED with witnesses: cmd-clink (empty field shifts), bash-ble (TAB cuts the insert text),
    zsh (an empty value line makes the arrays differ).
-   Stretch (correspondence + oracle only): zsh blocks for non-empty lines, tcsh, oil, bash list
-   mode, byte-level JSON parser round trip. *)
+   Added later (end of this file): the JSON formats at byte level (xonsh, ion, powershell, nushell, elvish) and
+   the whole zsh frame for non-empty lines.  Correspondence + oracle only: tcsh, oil, bash list mode. *)
 From CV Require Import Base.Str Base.Utf8 Gen.Tables Model.Common Model.Shells Spec.FmtDecode Proofs.Framing.
 
 Theorem C04_fish_roundtrip : forall vs,
